@@ -10,6 +10,8 @@ tools/baseline.py; DESIGN.md 11.5), and the thorough tier of every property requ
   reorder    the methods of every class are sorted by name, descending (classes with a method named like an imported module are left
              alone: there the order decides what an annotation refers to)
   mirror     `a < b` -> `b > a` for simple operands, and `if c: A else: B` -> `if not c: B else: A`
+  params     the positional parameters of every private function or method (`_name`) that is never called with keyword arguments are
+             renamed (`order` -> `p_order`)
   augexpand  `x op= e` -> `x = x op e` where the target is an immutable scalar (the pinned table sa/known_shapes.json says which)
 """
 from __future__ import annotations
@@ -23,7 +25,7 @@ import random
 from typing import Set
 
 FuncT = (ast.FunctionDef, ast.AsyncFunctionDef)
-MODES = ("reformat", "rename", "reorder", "mirror", "augexpand")
+MODES = ("reformat", "rename", "reorder", "mirror", "augexpand", "params")
 
 
 def _rename_function(fn: ast.AST, rnd: random.Random, prob: float) -> int:
@@ -103,6 +105,42 @@ class _AugExpand(ast.NodeTransformer):
         return ast.Assign([node.target], ast.BinOp(left, node.op, node.value))
 
 
+def _rename_params(trees) -> int:
+    defs = {}
+    for t in trees.values():
+        for c in ast.walk(t):
+            if isinstance(c, FuncT) and c.name.startswith("_") and not c.name.startswith("__"):
+                defs.setdefault(c.name, []).append(c)
+    kwuse = set()
+    for t in trees.values():
+        for c in ast.walk(t):
+            if isinstance(c, ast.Call) and c.keywords:
+                nm = c.func.attr if isinstance(c.func, ast.Attribute) else getattr(c.func, "id", None)
+                if nm in defs:
+                    kwuse.add(nm)
+    count = 0
+    for name, fl in defs.items():
+        if name in kwuse:
+            continue
+        for fn in fl:
+            ps = [x for x in fn.args.posonlyargs + fn.args.args if x.arg not in ("self", "cls")]
+            used = {x.id for x in ast.walk(fn) if isinstance(x, ast.Name)}
+            inner = {y.arg for x in ast.walk(fn) if isinstance(x, FuncT + (ast.Lambda,)) and x is not fn for y in x.args.args}
+            mp = {}
+            for p in ps:
+                new = "p_" + p.arg
+                if new in used or p.arg in inner:
+                    continue
+                mp[p.arg] = new
+                p.arg = new
+                count += 1
+            for st in fn.body:
+                for x in ast.walk(st):
+                    if isinstance(x, ast.Name) and x.id in mp:
+                        x.id = mp[x.id]
+    return count
+
+
 def rewrite(root: str, mode: str, seed: int = 1, prob: float = 0.6) -> int:
     assert mode in MODES, mode
     rnd = random.Random(seed)
@@ -111,7 +149,18 @@ def rewrite(root: str, mode: str, seed: int = 1, prob: float = 0.6) -> int:
     if mode == "augexpand":
         with open(os.path.join(os.path.dirname(os.path.abspath(__file__)), "known_shapes.json")) as f:
             safe = {x for v in json.load(f).values() for x in v.get("augassign", [])}
-    for path in sorted(glob.glob(os.path.join(root, "basana", "**", "*.py"), recursive=True)):
+    paths = sorted(glob.glob(os.path.join(root, "basana", "**", "*.py"), recursive=True))
+    if mode == "params":
+        trees = {}
+        for path in paths:
+            with open(path) as f:
+                trees[path] = ast.parse(f.read())
+        count = _rename_params(trees)
+        for path, tree in trees.items():
+            with open(path, "w") as f:
+                f.write(ast.unparse(tree) + "\n")
+        return count
+    for path in paths:
         with open(path) as f:
             tree = ast.parse(f.read())
         if mode == "rename":
